@@ -186,7 +186,7 @@ func init() {
 
 func init() {
 	register(&PropSpec{ID: "C13",
-		Explain:     "Decides, site by site, that no instruction reachable from reading arbitrary text (ReadDiff*/ReadPatch*/ReadMerge*/ReadJson*/ReadYaml*/NewPath/NewJsonNode) or from any Patch can panic: every index, slice, make, unchecked type assertion, explicit panic, integer division and call to a panicking library function in that call-graph closure is an obligation discharged by a named schema — S1 the Go compiler's prove pass removed the bounds check, S2 guard facts (branch-edge dataflow over len() and integer terms, closed enumerations, infeasible-edge pruning) imply the bounds, S3 range/len shapes, S5 closed path-element kinds for the panicking type-switch defaults, S6 marshal-cannot-fail (raw() type sets + finiteness of every float that becomes a number), S7 sort callbacks — or reported as an unproved may-panic site. R-CLIERR: neither main package panics or log.Fatals; every error reaches exit status 2.",
+		Explain:     "Decides, site by site, that no instruction reachable from reading arbitrary text (ReadDiff*/ReadPatch*/ReadMerge*/ReadJson*/ReadYaml*/NewPath/NewJsonNode) or from any Patch can panic: every index, slice, make, unchecked type assertion, explicit panic, integer division and call to a panicking library function in that call-graph closure is an obligation discharged by a named schema — S1 the Go compiler's prove pass removed the bounds check, S2 guard facts (branch-edge dataflow over len() and integer terms, closed enumerations, infeasible-edge pruning) imply the bounds, S3 range/len shapes, S5 closed path-element kinds for the panicking type-switch defaults, S6 marshal-cannot-fail (raw() type sets + finiteness of every float that becomes a number), S7 sort callbacks — or reported as an unproved may-panic site. R-CLIERR: neither main package panics or log.Fatals; every error reaches exit status 2. The guard facts are sound under integer wrap-around: a comparison or bound that mentions t+c is used only where t is known not to reach the end of the int range (interval, distance from a length, or a counter). S14: an index that a package function answered for this very slice, every return of which is a negative constant or a position proved inside its parameter, guarded against the negative answer.",
 		NotDecided:  "Diff/diffRest and the renderers (their index safety rests on cursor invariants), stack or memory exhaustion, panics inside yaml.v2/encoding/json/jsonpointer, nil JsonNodes injected through the Go API.",
 		Assumptions: append([]string{"the compiler's bounds-check elimination is semantics-preserving (a check it removed cannot fail)", "maps held by jsonObject values are non-nil (constructor invariant)"}, commonAssumptions...),
 		Run: func(w *World, r *Report) {
@@ -298,7 +298,7 @@ func init() {
 
 func init() {
 	register(&PropSpec{ID: "C08",
-		Explain:     "Decides that set / multiset / keyed-member hunks can only commit behind their expectations: (R-EXPECT) in jsonSet.patch and jsonMultiset.patch every success return that is not a forwarded nested result lies behind the loop over the removed members, every way round that loop passes the lookup hit and a successful Equals of the found member (multiset: the count-underflow schema), every other way out only returns errors, and the whole-value base case lies behind a successful Equals; (R-PATCHRESULT) the outcome of the nested patch of a keyed member is consumed; (R-FWD) the keyed member receives the caller's expectations; (R-KINDS) the path kinds a set/multiset diff emits are the kinds its patch accepts; (R-IDENTUSE) identity hashing (ident/pathIdent) is used only by set diff/patch, never by Equals/hashCode. (R-KEYBIND) every digest compared to select the keyed member contains each looked-up key as data on the paths feasible for the options passed; (R-IDENTPROV) every value entering a member identity is loaded from the member; (R-SEARCHALL) the member search is not cut short.",
+		Explain:     "Decides that set / multiset / keyed-member hunks can only commit behind their expectations: (R-EXPECT) in jsonSet.patch and jsonMultiset.patch every success return that is not a forwarded nested result lies behind the loop over the removed members, every way round that loop passes the lookup hit and a successful Equals of the found member (multiset: the count-underflow schema), every other way out only returns errors, and the whole-value base case lies behind a successful Equals; (R-PATCHRESULT) the outcome of the nested patch of a keyed member is consumed; (R-FWD) the keyed member receives the caller's expectations; (R-KINDS) the path kinds a set/multiset diff emits are the kinds its patch accepts; (R-IDENTUSE) identity hashing (ident/pathIdent) is used only by set diff/patch, never by Equals/hashCode. (R-KEYBIND) every digest compared to select the keyed member contains each looked-up key as data on the paths feasible for the options passed; (R-IDENTPROV) every value entering a member identity is loaded from the member; (R-SEARCHALL) the member search is not cut short. R-IDENTPROV, identity-of-this-member-only: the map a member's identity is collected in starts empty for every candidate of the search.",
 		NotDecided:  "Order independence and `other members untouched` on concrete values, non-array targets of set paths (a set hunk applied to a scalar replaces it), digest collisions.",
 		Assumptions: commonAssumptions,
 		Run: func(w *World, r *Report) {
@@ -538,7 +538,7 @@ func init() {
 
 func init() {
 	register(&PropSpec{ID: "C06",
-		Explain:     "Decides narrow structural necessary conditions of a minimal list diff with context: (R-LCSDEP) the common subsequence handed to the hunk walk is computed by a call that receives the hash sequences of both arrays, each sequence is built from its own side's element hashCodes, the continuation of the walk receives the rest of the caller's sequences, and same-kind containers at the same position are diffed recursively on the sameContainerType-true edge instead of being replaced; (R-CTX1) every Before/After stored into a list hunk is a one-element list and the accumulating hunk is created with its before-context; (R-PROV) Before is drawn from the argument side and After from the receiver side (that is how list patch compares them). (R-CURSOR) the walk's path cursor relation and the handed-on context element b[B-1]; (R-LCSDEP, pairwise clause) one position is replaced by another only behind the false outcome of the same-kind test.",
+		Explain:     "Decides narrow structural necessary conditions of a minimal list diff with context: (R-LCSDEP) the common subsequence handed to the hunk walk is computed by a call that receives the hash sequences of both arrays, each sequence is built from its own side's element hashCodes, the continuation of the walk receives the rest of the caller's sequences, and same-kind containers at the same position are diffed recursively on the sameContainerType-true edge instead of being replaced; (R-CTX1) every Before/After stored into a list hunk is a one-element list and the accumulating hunk is created with its before-context; (R-PROV) Before is drawn from the argument side and After from the receiver side (that is how list patch compares them). (R-CURSOR) the walk's path cursor relation and the handed-on context element b[B-1]; (R-LCSDEP, pairwise clause) one position is replaced by another only behind the false outcome of the same-kind test. R-LCSDEP, one-sided-move clause: every move of list[cursor] into Remove/Add lies behind a test of the other cursor alone (exhausted / on a common element) or behind the false outcome of the same-kind test with no cursor stored in between.",
 		NotDecided:  "Minimality itself (size of the edit script against an optimum for every pair) and that the recorded context equals the neighbouring element: numeric/value statements.",
 		Assumptions: commonAssumptions,
 		Run: func(w *World, r *Report) {
